@@ -30,13 +30,15 @@ theorem readI16List_step {n : Nat} {vs : List Int} (hn : vs.length = n) (hf : li
   rw [hl] at h'
   exact ⟨e, h'⟩
 
-theorem readPy_sub (k n : Nat) : readPy (((k + n : Nat) : Int) - (k : Int)) = readUpTo n := by
+theorem readPy_sub (k n : Nat) {d : B} {p : Nat} (h : p + n ≤ d.length) :
+    readPy (((k + n : Nat) : Int) - (k : Int)) d p = readUpTo n d p := by
   have e : (((k + n : Nat) : Int) - (k : Int)) = (n : Int) := by omega
   rw [e]
   unfold readPy
   have : ¬ ((n : Int) < 0) := by omega
   rw [if_neg this]
-  simp
+  simp only [Int.toNat_natCast]
+  rw [if_neg (not_overflows_of_le (by omega))]
 
 /-! ## VirtualMemoryArray -/
 
@@ -103,8 +105,9 @@ theorem dec_step {x : VMA} (hwf : x.WF) (hf : x.Fits) {d : B} {p : Nat} {rest : 
       obtain ⟨e5, h⟩ := readU_step h f2
       obtain ⟨e6, h⟩ := readU_step h f3
       have e7 := readUpTo_at h.left
-      have hpy : readPy ((c.bodyT.length : Int) - 23) = readUpTo c.data.length := by
-        rw [hbl]; exact readPy_sub 23 c.data.length
+      have hpy : readPy ((c.bodyT.length : Int) - 23) d (p + 4 + 4 + 4 + 4 * 4 + 2 + 1) =
+          readUpTo c.data.length d (p + 4 + 4 + 4 + 4 * 4 + 2 + 1) := by
+        rw [hbl]; exact readPy_sub 23 c.data.length (by have := h.left.bound; omega)
       simp only [dec, bind, Except.bind, e1, if_neg h0, e2, if_neg hne, e3, e4, e5, e6, hpy, e7, if_pos hcomp]
       simp only [List.length_append, length_beBytes, length_lenBlockT, padAmount_one, hbl, Nat.add_assoc]
       congr 2
